@@ -2175,10 +2175,12 @@ class Node(_protocols.NodeProtocol, _display.PrettyPrintable):
         self.device_configurations: tuple[NodeDeviceConfiguration, ...] = device_configurations
         # _graph is set by graph.append
         self._graph: Graph | None = None
+        # Set all fields before adding the node to a graph so that the node is complete
+        # when the graph (or a journal observing it) looks at it
+        self.doc_string = doc_string
         # Add the node to the graph if graph is specified
         if graph is not None:
             graph.append(self)
-        self.doc_string = doc_string
 
         # Add the node as a use of the inputs
         for i, input_value in enumerate(self._inputs):
